@@ -11,40 +11,6 @@ section
 variable {α : Type} [Add α] [Sub α] [Mul α] [Div α] [Neg α] [LT α] [DecidableLT α]
   [LE α] [DecidableLE α] [OfNat α 0] [OfNat α 1] [HasFloor α]
 
-def Node.now : Node α → Option Nat
-  | .sec s => s.now
-  | .strat d _ => d.now
-
-/-- node at a path -/
-def Node.get? : Node α → List Nat → Option (Node α)
-  | n, [] => some n
-  | .sec _, _ :: _ => none
-  | .strat _ kids, i :: rest =>
-    match kids[i]? with
-    | none => none
-    | some k => k.get? rest
-
-/-- result of a node-level operation: new node, adjustments for the node's own parent,
-    and whether `root.stale` was set. -/
-abbrev OpRes (α : Type) := Node α × List (Adj α) × Bool
-
-/-- Apply `f` to the node at `path`; `f` receives the data of the node's parent strategy
-    (none at the root).  The adjustments it returns are booked on that parent. -/
-def modAt (f : Option (StratData α) → Node α → Except Err (OpRes α)) :
-    List Nat → Option (StratData α) → Node α → Except Err (OpRes α)
-  | [], par, n => f par n
-  | _ :: _, _, .sec _ => throw Err.badPath
-  | i :: rest, _, .strat sd kids =>
-    match kids[i]? with
-    | none => throw Err.badPath
-    | some k =>
-      (modAt f rest (some sd) k).map fun (k', adjs, st) =>
-        (.strat (adjs.foldl StratData.adjust sd) (kids.set i k'), [], st)
-
-def World.modify (w : World α) (path : List Nat)
-    (f : Option (StratData α) → Node α → Except Err (OpRes α)) : Except Err (World α) :=
-  (modAt f path none w.root).map fun (r, _, st) => { root := r, stale := w.stale || st }
-
 /-- `if self.root.stale: self.root.update(self.root.now, None)` -/
 def refresh (cfg : Cfg α) (w : World α) : Except Err (World α) :=
   if w.stale then
@@ -86,19 +52,11 @@ def opTransact (cfg : Cfg α) (w : World α) (path : List Nat) (q : α) (update 
     | _, .strat sd kids =>
       (transKids cfg q kids sd).map fun (sd2, kids2) => (.strat sd2 kids2, [], update)
 
-/-- `strategy.flatten()` -/
+/-- `strategy.flatten()` called by the user or by `close` -/
 def opFlatten (cfg : Cfg α) (w : World α) (path : List Nat) : Except Err (World α) :=
-  -- the first `c.value` / read goes through a refreshing getter (only if there is a child to look at,
-  -- and only the market-value branch reads `value`)
-  let needsRead : Bool :=
-    match w.root.get? path with
-    | some (.strat sd kids) => !sd.fixedIncome && !kids.isEmpty
-    | _ => false
-  (if needsRead then refresh cfg w else pure w).bind fun w1 =>
-  w1.modify path fun _ n =>
-    match n with
-    | .sec _ => throw Err.badPath
-    | .strat sd kids => (flattenStrat cfg sd kids).map fun (sd', kids') => (.strat sd' kids', [], true)
+  match w.root.get? path with
+  | some n => flattenAt cfg (refresh cfg) n path w
+  | none => throw Err.badPath
 
 /-- `strategy.close(child, update=update)` -/
 def opClose (cfg : Cfg α) (w : World α) (path : List Nat) (child : Nat) (update : Bool) : Except Err (World α) :=
